@@ -115,7 +115,8 @@ def good_transfer(h, rng, vars_):
     vm = rng.choice(cands)
     data = bytes(rng.getrandbits(8) for _ in range(rng.choice([1, 4, 9, 15])))
     res = c.download(vm.index, vm.sub, data)
-    if res[0] == "ok":
+    if res[0] == "ok" and rng.random() < 0.5:
+        # (not always: an upload in between re-allocates server state and can hide what a download left behind)
         c.upload(vm.index, vm.sub)
 
 
@@ -133,7 +134,7 @@ def server_refusals(ctx, h, rng):
         return d
 
     def after():
-        position[0] = rng.choice(["between", "between", "after-success"])
+        position[0] = rng.choice(["between", "after-success", "after-success"])
         if position[0] == "after-success":
             good_transfer(h, rng, vars_)
 
